@@ -27,7 +27,9 @@ Modes == {"falloff", "sysexit", "sysexit0", "sysexitNone", "sysexit1", "sysexitS
 \*   "fin0"/"fin1":       try: sys.exit(0 / 1) finally: <the final sys.exit>   (the later call decides the status)
 \* The interposed sys.exit records the code of EVERY call; the last call wins; a termination that bypasses the interposition
 \* leaves the code of the earlier call in place.
-Priors == {"none", "caught0", "caught1", "fin0", "fin1"}
+\*   "midprove":          the script calls backend.prove() itself after its first statement and goes on tracing: the hook's proof at
+\*                        exit must still cover the COMPLETE trace (the explicit call is the user's business, not the hook's)
+Priors == {"none", "caught0", "caught1", "fin0", "fin1", "midprove"}
 
 VARIABLES pc, pos, mode, prior, autoprove, hasProcessSnark, exitcode, excseen, status, proved, hookfailed, lenAtProve
 vars == <<pc, pos, mode, prior, autoprove, hasProcessSnark, exitcode, excseen, status, proved, hookfailed, lenAtProve>>
@@ -36,6 +38,7 @@ vars == <<pc, pos, mode, prior, autoprove, hasProcessSnark, exitcode, excseen, s
 Init == /\ pc = "run" /\ pos = 0
         /\ mode \in Modes /\ autoprove \in BOOLEAN /\ hasProcessSnark \in BOOLEAN
         /\ prior \in Priors /\ (prior \in {"fin0", "fin1"} => mode \in {"sysexit0", "sysexit1", "sysexitStr"})
+        /\ (prior = "midprove" => mode \in {"falloff", "sysexit0", "sysexit1", "exception"})
         /\ exitcode = "unset" /\ excseen = FALSE /\ status = -1 /\ proved = 0 /\ hookfailed = FALSE /\ lenAtProve = -1
 
 Stmt == /\ pc = "run" /\ pos < NStmts /\ pos' = pos + 1
